@@ -2619,6 +2619,14 @@ func (db *DB) checkpointWithExecutor(ctx context.Context, mode string, exec *syn
 				return false, fmt.Errorf("cannot copy wal after checkpoint: %w", err)
 			}
 			exec.applySyncResult(result)
+
+			// The WAL may also have been restarted between the header read
+			// above and this copy, in which case the copy started over from
+			// the new header and never saw the end of the previous WAL.
+			if mid, err = readWALHeader(db.WALPath()); err != nil {
+				return false, err
+			}
+			restartedBeforeCheckpoint = !bytes.Equal(hdr, mid)
 		}
 	}
 
